@@ -11,8 +11,11 @@ EXTENDS Integers, FiniteSets, TLC
 
 StartupClasses == {"pool_md5", "pool_md5_authquery", "pool_trust", "unknown_db", "unknown_user", "admin_ok_user",
                    "admin_wrong_user", "no_user"}
+\* zero_length_body / constant_md5 / correct_prefix / correct_without_nul: well-framed PasswordMessages whose payload
+\* is shorter than a full answer (nothing, the literal "md5", a prefix of the right answer, the right answer without NUL)
 ResponseClasses == {"correct", "wrong_password", "replayed", "other_users_password", "truncated", "empty",
-                    "wrong_message_type", "none"}
+                    "wrong_message_type", "none", "zero_length_body", "constant_md5", "correct_prefix",
+                    "correct_without_nul", "correct_with_suffix"}
 CONSTANT Dev
 \* Dev: "any_password"   - the comparison is skipped / inverted
 \*      "salt_ignored"   - a correct answer to another connection's salt is accepted
@@ -41,6 +44,7 @@ Startup(s) ==
 Accepts(s, r) ==
   \/ MayAdmit(s, r)
   \/ "any_password" \in Dev /\ r \in {"wrong_password", "replayed", "other_users_password"}
+  \/ "prefix_accepted" \in Dev /\ r \in {"zero_length_body", "constant_md5", "correct_prefix", "correct_without_nul"}
   \/ "salt_ignored" \in Dev /\ r = "replayed" /\ s # "admin_wrong_user"
   \/ "admin_via_pool" \in Dev /\ s = "admin_wrong_user" /\ r = "correct"
 
